@@ -480,7 +480,8 @@ func joinOperator(v interface{}, operator string) (string, error) {
 		}
 		ops := make([]string, len(arr))
 		for i := 0; i < len(arr); i++ {
-			ope, err := parseOperand(arr[i], false, operator == " != ")
+			// a lone operand of "not" is negated; with two or more operands "not" is the != operator
+			ope, err := parseOperand(arr[i], false, operator == " != " && len(arr) == 1)
 			if err != nil {
 
 				return "", err
